@@ -105,6 +105,7 @@ Proof.
   - destruct v; try discriminate. destruct l; [reflexivity|discriminate].
   - destruct v; try discriminate. reflexivity.
   - destruct ptr; destruct v; try discriminate; [reflexivity|]. apply String.eqb_eq in He. subst. reflexivity.
+  - destruct v; try discriminate. apply String.eqb_eq in He. subst. reflexivity.
 Qed.
 
 Lemma fields_rt : forall fs,
@@ -302,26 +303,31 @@ Qed.
 
 Lemma wf_alt_code_lt : forall a c, wf_schema a = true -> alt_code a = Some c -> (c < 4294967296)%N.
 Proof.
-  intros a c Hw Ha. destruct a; try discriminate; destruct code as [c'|]; try discriminate;
-    inversion Ha; subst c'; cbn [wf_schema] in Hw; apply andb_prop in Hw.
-  - destruct Hw as [_ Hc]. apply N.ltb_lt in Hc. exact Hc.
-  - destruct Hw as [Hc _]. apply N.ltb_lt in Hc. exact Hc.
+  intros a c Hw Ha. destruct a; try discriminate.
+  - destruct code as [c'|]; try discriminate. inversion Ha; subst c'. cbn [wf_schema] in Hw. apply andb_prop in Hw.
+    destruct Hw as [_ Hc]. apply N.ltb_lt in Hc. exact Hc.
+  - destruct code as [c'|]; try discriminate. inversion Ha; subst c'. cbn [wf_schema] in Hw. apply andb_prop in Hw.
+    destruct Hw as [Hc _]. apply N.ltb_lt in Hc. exact Hc.
+  - inversion Ha; subst code. cbn [wf_schema] in Hw. apply andb_prop in Hw.
+    destruct Hw as [Hc _]. apply N.ltb_lt in Hc. exact Hc.
 Qed.
 
 (* the encoding of an alternative is an object that starts with its "type" entry *)
 Lemma alt_enc_typed : forall a c v j, alt_code a = Some c -> jencode a v = Ok j ->
   exists o', j = JObj ((key_type, JNum (Z.of_N c)) :: o').
 Proof.
-  intros a c v j Ha E. destruct a; try discriminate; destruct code as [c'|]; try discriminate;
-    inversion Ha; subst c'; cbn [jencode] in E.
-  - assert (B : forall x, (match x with
+  intros a c v j Ha E. destruct a; try discriminate.
+  - destruct code as [c'|]; try discriminate. inversion Ha; subst c'. cbn [jencode] in E.
+    assert (B : forall x, (match x with
                            | VList vs => if fields_ok fs then let* kvs := enc_fields jencode fs vs in Ok (JObj (code_entry (Some c) ++ kvs))
                                          else Err EUnsupported
                            | _ => Err EType end) = Ok j -> exists o', j = JObj ((key_type, JNum (Z.of_N c)) :: o')).
     { intros x Ex. destruct x; try discriminate. destruct (fields_ok fs); [|discriminate].
       apply bind_ok in Ex. destruct Ex as (kvs & _ & Ex). inversion Ex. cbn [code_entry app]. eauto. }
     destruct ptr; [destruct v; try discriminate|]; apply B in E; exact E.
-  - destruct ptr; [destruct v; try discriminate|]; destruct v; try discriminate; inversion E; eauto.
+  - destruct code as [c'|]; try discriminate. inversion Ha; subst c'. cbn [jencode] in E.
+    destruct ptr; [destruct v; try discriminate|]; destruct v; try discriminate; inversion E; eauto.
+  - inversion Ha; subst code. cbn [jencode] in E. destruct v; try discriminate; inversion E; eauto.
 Qed.
 
 Lemma iface_rt : forall alts,
@@ -423,6 +429,10 @@ Proof.
         rewrite decode_encode_hex; cbn [bind]; rewrite fit_length; reflexivity.
     + destruct ptr; (eexists; split; [reflexivity|]); cbn [bind];
         rewrite decode_encode_hex; cbn [bind]; rewrite fit_length; reflexivity.
+  - (* byte slice with an object code *)
+    intros v H. cbn [wf_schema] in Hwf. apply andb_prop in Hwf. destruct Hwf as [_ Hk]. apply negb_true_iff in Hk.
+    destruct v; try discriminate. eexists. split; [reflexivity|]. cbn [jdecode jlookup].
+    rewrite Hk, String.eqb_refl. rewrite decode_encode_hex. reflexivity.
 Qed.
 
 Theorem jroundtrip : forall s, wf_schema s = true -> rt s.
@@ -500,6 +510,7 @@ Proof.
     eapply find_alt_ok; [|exact E]. eapply Forall_impl; [|exact H]. intros a Ha j'. apply Ha.
   - destruct ptr; [destruct v; try discriminate|]; destruct v; try discriminate; inversion E; subst;
       destruct code; reflexivity.
+  - destruct v; try discriminate; inversion E; reflexivity.
 Qed.
 
 Theorem jroundtrip_top : forall code fs v,
